@@ -476,6 +476,7 @@ VARINPUT_TEXTS = ["", "A = 1", "A = B", "A = 其B", "A = 其", "A = 【1，2】"
                   "A = （新建异常：“x”）", "A = （新建数值：1）", "A = 以B（后增：2）", "A = B#1", "A = 【1】#5", "A = 1 / 0",
                   "A = （没有这个方法：1）", "A = 1\nB = A", "A = B = 1", "其A = 1", "A", "令A = 1", "A = 以1（加：其B）",
                   "A = 以“x”（取样：1、B）", "A = （新建B）", "A = 【“k” = B】", "A = 真 且 B", "A = 以【】（新增：1、-5）",
+                  "注：说明", "// x", "/* x */", "导入《文件》", "\u200b", "注：「多\n行」", "\n", "A = 1 // 尾",
                   "如果真：\n    A = 1", "A = “", "A = 1 +", "（", "A = 以其（加：1）", "A = （显示：其B）得到C", "A = 以1（加：2）得到C\nB = C"]
 
 
